@@ -43,10 +43,15 @@ func NewHTTPResponseBody(
 			return HTTPResponseBody{}, adoptErrorForResponseBody(d, err)
 		}
 	case SerializeFormatPlainString:
-		s, err = NewExchangeRegexSchema(b)
+		rs, err := NewExchangeRegexSchema(b)
+		if err == nil {
+			// an invalid pattern is an error of the body, not of the first serialisation
+			err = rs.Check()
+		}
 		if err != nil {
 			return HTTPResponseBody{}, adoptErrorForResponseBody(d, err)
 		}
+		s = rs
 	default:
 		s = NewExchangePseudoSchema(sn)
 	}
